@@ -1,6 +1,7 @@
 package main
 
 import (
+	"bytes"
 	"encoding/binary"
 	"math/bits"
 	"strings"
@@ -172,6 +173,8 @@ func execGcs(c Case) string {
 				b.AddEntry(unhx(t[1]))
 			case "h":
 				b.SetKeyFromHash(mkHash(unhx(t[1])))
+			case "H": // AddHash: the 32 bytes of the hash are the entry
+				b.AddHash(mkHash(unhx(t[1])))
 			case "P": // Preallocate in the middle of a chain must not lose what was added
 				b.Preallocate(uint32(atou(t[1])))
 			case "A": // AddEntries
@@ -204,6 +207,38 @@ func execGcs(c Case) string {
 			return ks + " " + gcsErr(err)
 		}
 		return ks + " " + filterObs(f)
+	case "bldrand": // bldrand <variant> <p> <n> <m> <items>: a builder with a random key behaves like the builder given that key
+		P, N, M := uint8(atoi(a[1])), uint32(atou(a[2])), atou(a[3])
+		var b *builder.GCSBuilder
+		switch a[0] {
+		case "pnm":
+			b = builder.WithRandomKeyPNM(P, N, M)
+		case "pm":
+			b = builder.WithRandomKeyPM(P, M)
+		default:
+			b = builder.WithRandomKey()
+			P, M = builder.DefaultP, builder.DefaultM
+		}
+		k1, _ := b.Key()
+		k2, err2 := builder.RandomKey()
+		items := expandItems(a[4])
+		f1, e1 := b.AddEntries(items).Build()
+		f2, e2 := builder.WithKeyPNM(k1, P, 0, M).AddEntries(items).Build()
+		if (e1 == nil) != (e2 == nil) {
+			return "builders disagree on the error"
+		}
+		if e1 != nil {
+			return "err"
+		}
+		b1, _ := f1.NBytes()
+		b2, _ := f2.NBytes()
+		members := 0
+		for _, it := range items {
+			if m, _ := f1.Match(k1, it); m {
+				members++
+			}
+		}
+		return b2s(bytes.Equal(b1, b2)) + " " + b2s(err2 == nil && k1 != k2) + " " + itoa(members) + "/" + itoa(len(items))
 	case "basic": // basic <txs> <prevheader>
 		blk := wire.NewMsgBlock(&wire.BlockHeader{Nonce: uint32(len(a[0]))})
 		txs := []*wire.MsgTx{}
@@ -485,6 +520,9 @@ func genC14(r *Rng, tier string, emit func(Case)) {
 				ops = append(ops, "h:"+hx(r.Bytes(32)))
 			case 4:
 				ops = append(ops, "A:"+hx(r.Bytes(1+r.Intn(2)))+","+hx(r.Bytes(1+r.Intn(3))))
+				if r.Intn(3) == 0 {
+					ops = append(ops, "H:"+hx(r.Bytes(32)))
+				}
 				if r.Bool() {
 					ops = append(ops, "P:"+itoa(r.Pick(0, 1, 100)))
 				}
@@ -533,6 +571,9 @@ func genC14(r *Rng, tier string, emit func(Case)) {
 			}
 		}
 		e("bld", "chain", joinOr(ops, ";"))
+		if i%10 == 0 {
+			e("bldrand", "randomkey", []string{"pnm", "pm", "default"}[r.Intn(3)], itoa(r.Pick(1, 19, 20, 32, 33, 0)), itoa(r.Intn(50)), u64s(uint64(r.Pick(1, 784931, 1<<20, 0))), genItems(r, 1+r.Intn(6)))
+		}
 		// block filters
 		g := &genCtx{r: r}
 		txs := g.genBlock(r.Intn(8), r.Intn(3))
